@@ -722,8 +722,18 @@ def session_begin_wiring(prog):
                 sites.append((f, i, n['r']))
     if not sites:
         raise AnalysisBroken('C07.R7: no place builds a SessionBegin')
+    def from_accessor(f, e, depth=0):
+        for j in f.walk(e):
+            m = f.nodes[j]
+            if m['k'] == 'call' and acc[0].id in [g.id for g in prog.callee_fns(f, m)]:
+                return True
+            if m['k'] == 'var' and m.get('vk') == 'local' and depth < 3:
+                d = f.single_def(m.get('decl'))
+                if d is not None and from_accessor(f, d, depth + 1):
+                    return True
+        return False
     for f, i, e in sites:
-        ok = any(f.nodes[j]['k'] == 'call' and acc[0].id in [g.id for g in prog.callee_fns(f, f.nodes[j])] for j in f.walk(e))
+        ok = from_accessor(f, e)
         if not ok:
             return ('%s builds the session-begin record with %s = %s, which is not the stream manager\'s "resumed" state (%s()): the outgoing-request table then keeps or cancels the '
                     'outstanding requests of the previous session on the wrong signal' % (f.display()[:50], fld.split('::')[-1], f.fmt(e, inline=False)[:50], acc[0].name)), f.loc(i)
